@@ -24,6 +24,7 @@ pub fn behaviour(files: &Files, main: &str) -> Behaviour {
     match r {
         Compiled::Fuel => Behaviour::NoVerdict("compile-budget".into()),
         Compiled::Panic { location, .. } => Behaviour::Broken(format!("panic@{}", location)),
+        Compiled::Err { errors, .. } if errors.is_empty() => Behaviour::Broken("rejected-with-an-empty-error-list".into()),
         Compiled::Err { errors, .. } => Behaviour::Rejected(errors.first().map(|e| e.display.clone()).unwrap_or_default()),
         Compiled::Ok(b) => {
             let text = String::from_utf8_lossy(&b).to_string();
@@ -121,7 +122,10 @@ fn augmented(rng: &mut Rng, depth: u32) -> Program {
 pub struct C11;
 
 fn cyclic_items(rng: &mut Rng) -> Vec<String> {
-    match rng.below(4) {
+    match rng.below(7) {
+        4 => vec!["zcu :: zca\n".into(), "zca :: zca + 1\n".into()],
+        5 => vec!["zcu :: fn -> int do\n    zca\nend\n".into(), "zca :: zca + 1\n".into()],
+        6 => vec!["zcu :: zca + 1\n".into(), "zca :: zcb\n".into(), "zcb :: zca\n".into()],
         0 => vec!["zca :: zcb + 1\n".into(), "zcb :: zca\n".into()],
         1 => vec!["zca :: zcb\n".into(), "zcb :: zcc\n".into(), "zcc :: zca + 1\n".into()],
         2 => vec!["zca :: zcf()\n".into(), "zcf :: fn -> int do\n    zca\nend\n".into()],
@@ -311,7 +315,12 @@ fn rel_use_path(from: &str, to: &str, rooted: bool) -> String {
     let tparts: Vec<&str> = to_noext.split('/').collect();
     // only descend (the layouts place imported files in the same dir or below, or use rooted paths)
     if tparts.len() > fdir.len() && tparts[..fdir.len()] == fdir[..] {
-        tparts[fdir.len()..].join("/")
+        let rel = tparts[fdir.len()..].join("/");
+        // a single-component path that names a std module means the std module: use the rooted form
+        if ["math", "list", "set", "dict", "maybe", "common", "container", "unsafe", "preamble"].contains(&rel.as_str()) {
+            return format!("/{}", to_noext);
+        }
+        rel
     } else {
         format!("/{}", to_noext)
     }
@@ -324,8 +333,20 @@ impl C12 {
         let nfiles = 2 + rng.below(4);
         let mut files = vec![FileSpec { path: "main.sy".into(), module: "main".into() }];
         let names = ["alpha", "beta", "gamma", "delta", "epsi"];
+        // a user module in a sub-folder may be called like a std module (`use lib/math as m`)
+        let std_names = ["math", "list", "set", "dict", "maybe", "common"];
+        let mut std_named: BTreeSet<usize> = BTreeSet::new();
         for k in 1..nfiles {
             let d = dirs[rng.below(dirs.len())];
+            if !d.is_empty() && rng.chance(1, 4) {
+                let n = std_names[rng.below(std_names.len())];
+                if !files.iter().any(|f| f.module == n) {
+                    files.push(FileSpec { path: format!("{}{}.sy", d, n), module: n.to_string() });
+                    std_named.insert(k);
+                    st.count("layout:user_module_named_like_a_std_module");
+                    continue;
+                }
+            }
             files.push(FileSpec { path: format!("{}{}.sy", d, names[k - 1]), module: names[k - 1].to_string() });
         }
         // assign items to files; start stays in main
@@ -366,7 +387,8 @@ impl C12 {
                 if oi == fi {
                     continue;
                 }
-                let form = match rng.below(4) {
+                // (the namespace `math` etc. already names the std module in every file: no plain `use`)
+                let form = match if std_named.contains(&oi) { 1 + rng.below(3) } else { rng.below(4) } {
                     0 => ImportForm::Qualified,
                     1 => ImportForm::Alias(format!("q{}", oi)),
                     2 => ImportForm::From,
